@@ -29,7 +29,9 @@ else
 fi
 if [ -f "$D/demo.rs" ]; then
   if (cd "$W/mut" && CARGO_TARGET_DIR="$W/rt" cargo test --offline --test demo >"$W/demo_mut.log" 2>&1); then DEMO_MUT=pass; else
-    if grep -q "^test result: FAILED" "$W/demo_mut.log"; then DEMO_MUT=fail; else DEMO_MUT="builderror"; fi; fi
+    if grep -q "^test result: FAILED" "$W/demo_mut.log"; then DEMO_MUT=fail
+    elif grep -q -E "signal: [0-9]+|SIGABRT|SIGSEGV|non-unwinding panic|has overflowed its stack|memory allocation of" "$W/demo_mut.log"; then DEMO_MUT="fail(process-abort)"
+    else DEMO_MUT="builderror"; fi; fi
 fi
 if (cd "$W/mut" && CARGO_TARGET_DIR="$W/rt" cargo test --offline --doc >"$W/doc.log" 2>&1); then DOC=pass; else DOC=fail; fi
 echo "EVAL $NAME unit_tests=[$TESTS] doctests=$DOC demo_without_change=$DEMO_CLEAN demo_with_change=$DEMO_MUT"
